@@ -105,6 +105,8 @@ fn suite(n: u32, codes: &[usize], order: &[u32], ite_step: usize, rep: &mut Repo
     for o in 0..8usize {
         progress(&json!({"sig": format!("C11/{}/crash", TDD_BINS[o]), "ctx": ctx}).to_string());
         for a in 0..fns.len() {
+            // results are dropped at once: collect them, a full store is not what is tested here
+            K::gc(&mr);
             for b in 0..fns.len() {
                 let exp = tables[a].map2(&tables[b], |x, y| K::bin_model(o, x, y));
                 check(rep, K::bin(o, &fns[a], &fns[b]), exp, format!("{}({:?}, {:?})", TDD_BINS[o], tables[a].vals, tables[b].vals), TDD_BINS[o]);
@@ -117,6 +119,7 @@ fn suite(n: u32, codes: &[usize], order: &[u32], ite_step: usize, rep: &mut Repo
     rep.class_n(&format!("n{n}.pairs_x_8_ops"), (8 * fns.len() * fns.len()) as u64);
     let mut n_ite = 0u64;
     for a in 0..fns.len() {
+        K::gc(&mr);
         progress(&json!({"sig": "C11/ite/crash", "ctx": ctx}).to_string());
         for b in (a % ite_step..fns.len()).step_by(ite_step) {
             for c in ((a + b) % ite_step..fns.len()).step_by(ite_step) {
